@@ -257,6 +257,10 @@ def wellGuarded : List Step → Bool
   | st :: rest =>
     (!st.canFail || st.guarded || rest.all (fun r => !isCommit r.name && !r.canFail)) && wellGuarded rest
 
+/-- position of the first step with this name -/
+def stepIndex (steps : List Step) (name : Str) : Option Nat :=
+  (steps.map (·.name)).idxOf? name
+
 /-! ### Options → which conditions hold (used by the executable driver) -/
 
 structure RunOpts where
